@@ -206,5 +206,22 @@ def run(ctx):
 
     r = ctx.rule("R4b", "native code addresses its input / output tables with the strides of their element types", 10)
     ctx.guarded(r, JD_.r_strides)
+    # "the NaN interval ..., which downstream consumers treat as undecided": every consumer decides a
+    # region only under a strict comparison that a NaN bound fails (the rules are C06's, C07's and C08's)
+    from .. import raster as RA_
+    from . import C08 as C08_
+
+    r = ctx.rule("R5", "consumers of box results decide a tile / cell only under strict comparisons, so a NaN interval stays undecided", 17)
+    ctx.guarded(r, RA_.r_fill_sign_pixel)
+    ctx.guarded(r, RA_.r_fill_sign_voxel)
+    ctx.guarded(r, C08_.r3_cells)
+    # native code returns normally only if the pointers it writes through survive its own helper calls
+    from .. import asmcopy as AK_
+    from .. import asmchecks as AC_
+
+    r = ctx.rule("R6", "native call helpers restore every pointer the generated code later reads or writes through", 8)
+    for kind in AC_.ALL:
+        for n_ in ("call_fn_unary", "call_fn_binary"):
+            ctx.guarded(r, AK_.check_call_helper, kind, n_)
     r = ctx.rule("R3f", "[resolved program] panic-capable MIR sites of the per-op data types are within the justified inventory", 60)
     ctx.guarded(r, FR.data_cone_panics, ctx)
